@@ -278,8 +278,11 @@ def half : α := (1 : α) / (2 : α)
 
 @[specialize] def tol1Of (tol x : α) : α := tol * RealLike.abs x + Gen.ProtDist.BRENT_ZEPS
 
-/-- the trial step of one iteration: `(d, e, u)` with `u` already raised to `BL_MIN` -/
-@[specialize] def brentTrial (tol : α) (s : BState α) : α × α × α :=
+/-- `if u < BL_MIN { u = BL_MIN }` -/
+@[specialize] def raiseToMin (u : α) : α := if RealLike.ltb u Gen.ProtDist.BL_MIN then Gen.ProtDist.BL_MIN else u
+
+/-- the trial step of one iteration, before `u` is raised to `BL_MIN`: `(d, e, u)` -/
+@[specialize] def brentTrial0 (tol : α) (s : BState α) : α × α × α :=
   let xm := half * (s.a + s.b)
   let tol1 := tol1Of tol s.x
   let tol2 := 2 * tol1
@@ -305,8 +308,12 @@ def half : α := (1 : α) / (2 : α)
     else golden
   let d := de.1
   let u := if RealLike.leb tol1 (RealLike.abs d) then s.x + d else s.x + sign tol1 d
-  let u := if RealLike.ltb u Gen.ProtDist.BL_MIN then Gen.ProtDist.BL_MIN else u
   (d, de.2, u)
+
+/-- the trial step of one iteration: `(d, e, u)` with `u` already raised to `BL_MIN` -/
+@[specialize] def brentTrial (tol : α) (s : BState α) : α × α × α :=
+  let t := brentTrial0 tol s
+  (t.1, t.2.1, raiseToMin t.2.2)
 
 /-- bookkeeping after the objective was evaluated at `|u|` (value `fu`) and the loop goes on -/
 @[specialize] def brentUpdate (s : BState α) (d e u fu : α) : BState α :=
@@ -373,18 +380,22 @@ def fStates (s : PSite α) : Option (Nat × Nat) :=
   | some x, some y => some (x, y)
   | _, _ => none
 
+/-- what one iteration of the `l` loop does to `Fs[i][j]` -/
+def fCellStep (i j : Nat) (acc : α) (s : PSite α) : α :=
+  if s.sel then
+    match fStates s with
+    | some (x, y) => if x = i ∧ y = j then acc + fWeight s else acc
+    | none => acc
+  else acc
+
 /-- `Fs[i][j]` after the `l` loop (before normalisation): the weights added to that cell, in site order -/
-@[specialize] def fCell (l : List (PSite α)) (i j : Nat) : α :=
-  l.foldl (fun acc s =>
-    if s.sel then
-      match fStates s with
-      | some (x, y) => if x = i ∧ y = j then acc + fWeight s else acc
-      | none => acc
-    else acc) 0
+@[specialize] def fCell (l : List (PSite α)) (i j : Nat) : α := l.foldl (fCellStep i j) 0
+
+/-- what one iteration of the `l` loop does to `len` -/
+def fLenStep (acc : α) (s : PSite α) : α := if s.sel && (fStates s).isSome then acc + fWeight s else acc
 
 /-- `len` after the `l` loop -/
-@[specialize] def fLen (l : List (PSite α)) : α :=
-  l.foldl (fun acc s => if s.sel && (fStates s).isSome then acc + fWeight s else acc) 0
+@[specialize] def fLen (l : List (PSite α)) : α := l.foldl fLenStep 0
 
 /-- `Fs` after `if len > .0 { Fs.Apply(v / len) }` -/
 @[specialize] def fNorm (l : List (PSite α)) (i j : Nat) : α :=
@@ -429,7 +440,9 @@ def capDist (d : α) : α := if RealLike.leb Gen.ProtDist.PROT_DIST_MAX d then G
     if RealLike.ltb sum Gen.ProtDist.sumLow then .ok (capDist Gen.ProtDist.mlMissing)
     else if RealLike.ltb Gen.ProtDist.sumHi1 sum && RealLike.ltb sum Gen.ProtDist.sumHi2 then
       let r := optDistF (fun t => -(lk F t)) v.brentBracketStop (mlInit jc)
-      if r.status == .tooMany then .brentPanic else .ok (capDist r.param)
+      match r.status with
+      | .tooMany => .brentPanic
+      | _ => .ok (capDist r.param)
     else .sumError
   else .ok 0
 
